@@ -319,6 +319,17 @@ func moduleScenarios(m modDef, quick bool) []*scenario {
 		Actors: []actor{{Name: "t1", Run: traffic("a", true, m.trafficOp...)}, {Name: "t2", Run: traffic("b", false, m.trafficOp...), Allowed: []string{"blocked-by:bo"}}}})
 	out = append(out, &scenario{Name: m.name + ": traffic(c) || traffic(c) (pass through a permissive rule)", Setup: setupPass, Three: true,
 		Actors: []actor{{Name: "t1", Run: traffic("c", true, m.trafficOp...), Allowed: []string{"pass"}}, {Name: "t2", Run: traffic("c", false, m.trafficOp...), Allowed: []string{"pass"}}}})
+	// the same, after the resource and the value have been used once: both requests take the paths for
+	// existing per-value / per-window state
+	setupWarm := func() {
+		setupPass()
+		traffic("c", false, m.trafficOp...)()
+		traffic("b", false, m.trafficOp...)()
+	}
+	out = append(out, &scenario{Name: m.name + ": traffic(c) || traffic(c) (warm state)", Setup: setupWarm, Three: true,
+		Actors: []actor{{Name: "t1", Run: traffic("c", true, m.trafficOp...), Allowed: []string{"pass"}}, {Name: "t2", Run: traffic("c", false, m.trafficOp...), Allowed: []string{"pass"}}}})
+	out = append(out, &scenario{Name: m.name + ": traffic(b) || traffic(b) (warm state, blocked)", Setup: setupWarm, Three: true,
+		Actors: []actor{{Name: "t1", Run: traffic("b", true, m.trafficOp...), Allowed: []string{"blocked-by:bo"}}, {Name: "t2", Run: traffic("b", false, m.trafficOp...), Allowed: []string{"blocked-by:bo"}}}})
 	// two writers
 	out = append(out, &scenario{Name: m.name + ": LoadRulesOfResource(a) || LoadRulesOfResource(b)", Setup: setup,
 		Actors: []actor{{Name: "w1", Run: func() string { m.loadRes("a", "an"); return "" }}, {Name: "w2", Run: func() string { m.loadRes("b", "bn"); return "" }}}})
